@@ -457,13 +457,16 @@ pub fn gen_ty(ty: &Ty, rng: &mut Rng, mode: GenMode) -> V {
             })
         }
         Ty::Int32 => match mode {
-            GenMode::Min | GenMode::Max => int(-7),
+            GenMode::Min => int(-7),
+            GenMode::Max => int(*rng.pick(&[-7i64, -8, -7, -257])),
             GenMode::Random => {
-                let c: [i64; 10] = [-7, -8, -257, -1, 0, -24, -25, -65536, -(1i64 << 31), (1i64 << 31) - 1];
-                if rng.chance(3, 4) {
-                    int(*rng.pick(&c))
-                } else {
-                    int(rng.below(1 << 32) as i64 - (1i64 << 31))
+                // IANA COSE algorithm registry (what platforms actually list), then boundary values, then anything
+                let cose: [i64; 22] = [-7, -8, -9, -19, -35, -36, -37, -38, -39, -47, -48, -49, -51, -52, -53, -257, -258, -259, -260, -261, -65535, 1];
+                let c: [i64; 8] = [-1, 0, -24, -25, -65536, -(1i64 << 31), (1i64 << 31) - 1, 23];
+                match rng.below(8) {
+                    0..=4 => int(*rng.pick(&cose)),
+                    5 | 6 => int(*rng.pick(&c)),
+                    _ => int(rng.below(1 << 32) as i64 - (1i64 << 31)),
                 }
             }
         },
@@ -485,14 +488,15 @@ pub fn gen_ty(ty: &Ty, rng: &mut Rng, mode: GenMode) -> V {
                         0
                     }
                 }
-                GenMode::Max => 2,
+                GenMode::Max => 3,
                 GenMode::Random => match max {
                     Some(c) => lattice_len(rng, *c),
                     None => {
-                        if rng.chance(1, 6) {
+                        // platforms send a dozen algorithms; the changelog promises more than 12 are accepted
+                        if rng.chance(1, 3) {
                             rng.usize_below(20)
                         } else {
-                            rng.usize_below(4)
+                            rng.usize_below(5)
                         }
                     }
                 },
